@@ -68,6 +68,8 @@ type Spec struct {
 	// Wildcard makes the listener bind 0.0.0.0 (port derived from the pid), so that clients can reach it
 	// through several local addresses (127.A.B.1, 127.A.B.2, ...) and replies must leave from the same one.
 	Wildcard bool
+	// DualStack makes the listener bind [::] (network "udp"), reachable as 127.A.B.1 and as ::1.
+	DualStack bool
 }
 
 // Env is one instance of the services.
@@ -93,9 +95,15 @@ func New(sp Spec) (*Env, error) {
 	e := &Env{Spec: sp, A: byte(1 + (pid>>8)%250), B: byte(pid % 256)}
 	e.Server = netip.AddrPortFrom(e.IP(1), 5000)
 	listen := e.Server.String()
+	network := "udp4"
 	if sp.Wildcard {
 		e.Server = netip.AddrPortFrom(e.IP(1), uint16(10000+pid%50000))
 		listen = fmt.Sprintf("0.0.0.0:%d", e.Server.Port())
+	}
+	if sp.DualStack {
+		e.Server = netip.AddrPortFrom(e.IP(1), uint16(10000+pid%50000))
+		listen = fmt.Sprintf("[::]:%d", e.Server.Port())
+		network = "udp"
 	}
 	e.Tunnel = netip.AddrPortFrom(e.IP(101), 7000)
 	proto := map[string]string{"direct": "direct", "none": "none", "socks5": "socks5", "ss2022": "2022-blake3-aes-128-gcm", "ss2022mu": "2022-blake3-aes-128-gcm"}[sp.Server]
@@ -107,7 +115,7 @@ func New(sp Spec) (*Env, error) {
 	}
 	srv := map[string]any{
 		"name": "s", "protocol": proto, "mtu": 1500,
-		"udpListeners": []map[string]any{{"network": "udp4", "address": listen, "batchMode": sp.Batch, "natTimeout": sp.NATTimeout, "sendChannelCapacity": sp.SendChanCap}},
+		"udpListeners": []map[string]any{{"network": network, "address": listen, "batchMode": sp.Batch, "natTimeout": sp.NATTimeout, "sendChannelCapacity": sp.SendChanCap}},
 	}
 	switch sp.Server {
 	case "direct":
@@ -282,6 +290,15 @@ func (c *Client) Rebind(port uint16) {
 	c.Sock = vudp.Listen(c.Addr.String(), c.Name+"'")
 }
 
+// RebindV6 moves the client, session unchanged, to [::1] (client address change across address families); the
+// listener must be dual-stack.
+func (c *Client) RebindV6() {
+	vudp.UDP_Close(c.Sock)
+	c.Addr = netip.AddrPortFrom(netip.IPv6Loopback(), uint16(20000+os.Getpid()%40000))
+	c.Sock = vudp.Listen(c.Addr.String(), c.Name+"v6")
+	c.Via = netip.AddrPortFrom(netip.IPv6Loopback(), c.e.Server.Port())
+}
+
 // Send packs payload for target and sends it to the relay.
 func (c *Client) Send(target conn.Addr, payload []byte) error {
 	if c.raw {
@@ -294,7 +311,8 @@ func (c *Client) Send(target conn.Addr, payload []byte) error {
 	if err != nil {
 		return err
 	}
-	_, err = vudp.UDP_WriteToUDPAddrPort(c.Sock, buf[ps:ps+pl], dest)
+	_ = dest // the session was made for c.Via; after RebindV6 the same session talks to the listener's IPv6 address
+	_, err = vudp.UDP_WriteToUDPAddrPort(c.Sock, buf[ps:ps+pl], c.Via)
 	return err
 }
 
@@ -307,8 +325,9 @@ func (c *Client) SendRaw(b []byte) error {
 // Canon replaces this process's loopback prefix so that observations are
 // identical across processes.
 func (e *Env) Canon(s string) string {
-	if e.Spec.Wildcard {
+	if e.Spec.Wildcard || e.Spec.DualStack {
 		s = strings.ReplaceAll(s, fmt.Sprintf(":%d", e.Server.Port()), ":wport")
+		s = strings.ReplaceAll(s, fmt.Sprintf(":%d", 20000+os.Getpid()%40000), ":cport6")
 	}
 	return strings.ReplaceAll(s, fmt.Sprintf("127.%d.%d.", e.A, e.B), "127.a.b.")
 }
@@ -383,6 +402,10 @@ func (t *Target) Serve() {
 		}
 		if t.Echo {
 			reply := "echo:" + string(buf[:n])
+			var size int
+			if _, err := fmt.Sscanf(string(buf[:n]), "size:%d", &size); err == nil && size > 0 && size < 4000 {
+				reply = strings.Repeat("R", size) // a reply of exactly the requested size
+			}
 			if _, err := vudp.UDP_WriteToUDPAddrPort(t.Sock, []byte(reply), from); err != nil {
 				return
 			}
